@@ -679,6 +679,16 @@ class Data(Field):
                     except Exception as e:
                         byte_count = None
 
+                    # the callable may have looked at a field which is not
+                    # fixed in this pattern (an Any compares equal to
+                    # everything): its result says nothing about the size
+                    if any(
+                        isinstance(getattr(pkt, name, None), Any)
+                        for name, _, _, _ in pkt.get_fields()
+                        if name != self.field_name
+                    ):
+                        byte_count = None
+
                 if isinstance(byte_count, Any):
                     byte_count = None
 
